@@ -273,6 +273,23 @@ func checkCase(c Case) error {
 					return fmt.Errorf("Parse: read %d of %d of the image failed (%s) but Parse reported success", k, nParse, kind)
 				}
 			}
+			// ... and parsing the signed image (the certificate table is read too)
+			sb := &faultReaderAt{data: signed}
+			if _, err := authenticode.Parse(sb); err != nil {
+				return fmt.Errorf("bad case: Parse of the signed image: %v", err)
+			}
+			for k := 1; k <= sb.calls; k++ {
+				fault("Parse(signed)/reader", k, kind)
+				r := &faultReaderAt{data: signed, failAt: k, kind: kind}
+				p, err := authenticode.Parse(r)
+				if r.fired && err == nil {
+					n := -1
+					if sigs, serr := p.Signatures(); serr == nil {
+						n = len(sigs)
+					}
+					return fmt.Errorf("Parse of a signed image: read %d of %d failed (%s) but Parse reported success (the object lists %d signatures, Bytes() equal to the file: %v)", k, sb.calls, kind, n, bytes.Equal(p.Bytes(), signed))
+				}
+			}
 			for k := 1; k <= nHash; k++ {
 				fault("Hash/reader", k, kind)
 				r := &faultReaderAt{data: img}
